@@ -99,10 +99,10 @@ func main() {
 	out := c.NewOut(c.OutPath())
 	defer out.Close()
 	r := c.NewRng(c.Seed())
-	n := c.Budget(160, 6000)
+	n := c.Budget(160, 2000)
 	nops := 60
 	if c.Tier() == "thorough" {
-		nops = 120
+		nops = 100
 	}
 	kapp.RunSeqs(n, c.Workers(), r, sim.NewWorld, func(w *sim.World, seq int, r *c.Rng) {
 		if seq == 0 {
